@@ -8,7 +8,7 @@ pub const RULE: &str = "digests over 4 scale functions x delta in {1.1,2,5,10,20
 pub const ASSUMPTIONS: &[&str] = &[
     "value tolerance tau = 1e-9 * data range when locating quantile(q) in the empirical CDF (interpolation between equal means returns the tied value +- 1 ulp)",
     "K2/K3 accuracy is only checked for n >= delta, as stated",
-    "'small multiple' is read as c*W with a 15% guard band: thresholds 1.15 W (smooth, delta >= 10), 1.725 W (smooth, delta < 10: generic midpoint-interpolation bound 1.5 W) and 3.45 W (ties/cliffs)",
+    "'small multiple' is read as c*W with a 15% guard band: thresholds 1.5 W (smooth: the generic midpoint-interpolation bound) and 3.45 W (ties/cliffs, 3 W + 15 %)",
 ];
 
 const DELTAS: [f64; 9] = [1.1, 2.0, 5.0, 10.0, 20.0, 50.0, 100.0, 300.0, 1000.0];
@@ -51,19 +51,13 @@ pub fn check_accuracy(t: &dyn Td, sf: Sf, delta: f64, fam: Family, sorted: &[f64
     let Some(w) = sf.width(delta, nf) else {
         return Ok(());
     };
-    // "one W for smooth densities, up to three W for ties/cliffs", 15 % guard band. With fewer than
-    // ten units of compression a digest has at most a handful of centroids, each spanning >= 20 % of
-    // the data; "smooth within a centroid" no longer holds for heavy tails (the centroid mean sits far
-    // from its median) and the generic bound for interpolating between adjacent centroid midpoints,
-    // 1.5 W for any data, is used instead (observed on the unchanged tree: 1.155 W for K0, delta = 5,
-    // Pareto(1.5), n = 495 666; <= 0.9 W for delta >= 10).
-    let c = if !fam.is_smooth() {
-        3.45
-    } else if delta < 10.0 {
-        1.5 * 1.15
-    } else {
-        1.15
-    };
+    // "one W for smooth densities, up to three W for ties/cliffs": a "small multiple" of W.
+    // Smooth families: the generic bound for interpolating between adjacent centroid midpoints is
+    // 1.5 W for any data (the true rank of the returned value lies within the two centroids that
+    // bracket q); observed maxima on the unchanged tree over 8 thorough runs: 1.155 W (K0, delta = 5,
+    // Pareto(1.5), n = 495 666: four centroids, each spanning >= 20 % of a heavy-tailed sample),
+    // 0.975 W for delta = 10, <= 0.93 W for delta >= 20. Ties/cliffs: 3 W with a 15 % guard band.
+    let c = if !fam.is_smooth() { 3.45 } else { 1.5 };
     let allowed = c * w + 2.0 / nf;
     if allowed >= 1.0 {
         return Ok(()); // vacuous
@@ -271,7 +265,7 @@ fn long_stream(ctx: &Ctx, j: usize, rep: &mut Report) {
                     return Err(("C04/too-many-centroids".into(), format!("n_centroids() = {} > delta + 3 = {} after {} sorted inserts", nc, delta + 3.0, i + 1)));
                 }
                 if let Some(w) = sf.width(delta, cnt) {
-                    let allowed = 1.15 * w + 2.0 / cnt;
+                    let allowed = 1.5 * w + 2.0 / cnt;
                     for k in 0..=1000 {
                         let q = k as f64 / 1000.0;
                         let x = t.quantile(q);
